@@ -27,7 +27,8 @@ def budget(tier):
 
 
 line = st.one_of(st.lists(st.sampled_from(ATOMS), max_size=10).map("".join), st.just(""), st.just(" "), st.just("\t"))
-count = st.sampled_from([0, 0, 0, 0, 1, 2, 3, 5, 12])
+# (huge counts: beyond every buffer, beyond 2^31 and 2^32 - they must act like "as far as it goes", never wrap around)
+count = st.sampled_from([0, 0, 0, 0, 0, 0, 0, 0, 1, 1, 2, 2, 3, 3, 5, 5, 12, 12, 65536, 2147483647, 2147483648, 4294967295, 4294967298, 99999999999])
 
 
 @st.composite
